@@ -155,6 +155,7 @@ impl World {
             let v = proj::view(d, None);
             o["vd"] = json!(chg::digest(v.to_string().as_bytes()));
             o["view"] = v;
+            o["hyd"] = json!(proj::hydrate_parents_disagree(d, None));
         }
         o
     }
@@ -266,6 +267,7 @@ impl World {
                 if level == ObsLevel::View {
                     rec["before"] = before;
                     rec["after"] = proj::view(&tx, None);
+                    rec["hyd"] = json!(proj::hydrate_parents_disagree(&tx, None));
                 }
                 if let Some(ac) = shadow.as_mut() {
                     let o2 = calls::exec(ac, &call);
@@ -680,7 +682,7 @@ impl World {
         let saved = self.obs_level;
         self.guarded(r, ev, |w| {
             let v = proj::view(&w.reps[r], Some(&heads));
-            let mut out = json!({"res":"ok","view":v});
+            let mut out = json!({"res":"ok","view":v,"hyd":proj::hydrate_parents_disagree(&w.reps[r], Some(&heads))});
             match w.reps[r].fork_at(&heads) {
                 Ok(f) => {
                     let applied: Vec<ChangeHash> = f.get_changes(&[]).iter().map(|c| c.hash()).collect();
